@@ -34,8 +34,11 @@ type Input struct {
 	Bodies map[string][]byte // route (host or host/path) -> HTTP 200 body; "ocsp*" / "crl*" are catch-alls
 	// Lengths announces a Content-Length for a route whatever its body holds
 	Lengths map[string]int64
-	WithST  bool
-	Cache   bool
+	// Together makes requests that arrive within a few milliseconds of each
+	// other be answered at the same instant
+	Together bool
+	WithST   bool
+	Cache    bool
 }
 
 // lyingLengths are announced body sizes a server can claim
@@ -725,7 +728,8 @@ func genHostileBody(rng *rand.Rand, idx int) Input {
 		desc = append(desc, fmt.Sprintf("d%d:%s", j, d))
 	}
 	if upper {
-		desc = append(desc, "ca1: two distribution points (first truncated)")
+		desc = append(desc, "ca1: two distribution points (first truncated), answers released together")
+		in.Together = true
 	}
 	in.Desc = "hostile-body " + strings.Join(desc, " | ")
 	return in
